@@ -479,13 +479,25 @@ func alwaysEnabled() bool { return true }
 // Do is the exported form of do for the shim packages.
 func Do(o *Obj, tag string, enabled func() bool, action func()) {
 	if S == nil {
-		panic("gosim/rt: visible operation outside a simulation")
+		// after the execution (oracle inspection): perform the operation
+		// directly; it must not need to block
+		if enabled != nil && !enabled() {
+			panic("gosim/rt: operation " + tag + " would block outside a simulation")
+		}
+		if action != nil {
+			action()
+		}
+		return
 	}
 	S.do(o, tag, enabled, action)
 }
 
 // Event records an operation outcome (exported for shims).
-func Event(o *Obj, kind string, outcome uint64, write bool) { S.event(o, kind, outcome, write) }
+func Event(o *Obj, kind string, outcome uint64, write bool) {
+	if S != nil {
+		S.event(o, kind, outcome, write)
+	}
+}
 
 // Active reports whether a simulation is running.
 func Active() bool { return S != nil }
@@ -584,7 +596,7 @@ func (s *Sched) reschedule(from *G, exiting bool) {
 // choose records a choice point and asks the strategy.
 func (s *Sched) choose(kind byte, costs []uint8) int {
 	idx := len(s.res.Points)
-	free := !s.explore
+	free := !s.explore && kind != 'd' // data choices are always enumerated
 	if !free && kind == 's' && s.strat != nil && s.strat.Cut(s, idx) {
 		s.res.PrunedAt = idx
 		s.end(EndPruned)
